@@ -718,6 +718,31 @@ func (s *rstate) eval(e gen.Expr) (interface{}, error) {
 			}
 			return b.String(), nil
 		}
+		if e.Fn == "render" || e.Fn == "setvar" {
+			// callbacks that use the context they are handed: render(name) executes another template from inside
+			// the call - on the same environment, into a buffer of its own, with a copy of everything visible - and
+			// returns what it wrote (a failure yields RENDER-ERROR); setvar(name, value) assigns through the
+			// context's scope, like a set statement at that point
+			args, err := s.evalArgs(e.Args)
+			if err != nil {
+				return nil, err
+			}
+			if e.Fn == "setvar" {
+				if len(args) != 2 {
+					oor("setvar takes a name and a value")
+				}
+				s.set(Str(args[0]), args[1])
+				return "", nil
+			}
+			if len(args) != 1 {
+				oor("render takes a name")
+			}
+			var buf strings.Builder
+			if err := s.in.exec(Str(args[0]), &buf, s.flat()); err != nil {
+				return "RENDER-ERROR", nil
+			}
+			return buf.String(), nil
+		}
 		if e.Fn == "names" {
 			seen := map[string]bool{}
 			var ns []string
